@@ -133,9 +133,12 @@ pub fn run_x(args: &[&str]) -> String {
                     "eqs" => {
                         let s = parse_text(p.get(2).copied().unwrap_or(""));
                         with_view(&roots, &interner, &v, |t| {
+                            // all four impls: text == &str, &str == text, text == str, str == text
                             let a = t == s.as_str();
                             let b = s.as_str() == t;
-                            if a != b { "ASYM".to_string() } else { (a as u8).to_string() }
+                            let c = t == *s.as_str();
+                            let d = *s.as_str() == t;
+                            if a != b || a != c || a != d { "ASYM".to_string() } else { (a as u8).to_string() }
                         })
                     }
                     "eqv" => match view(2) {
